@@ -134,6 +134,24 @@ def gen(rng):
         fu = J.Unit(fpath, fpkg, [], "class", foreign, fm)
         J.render(fu, rng, "std")
         units.append(fu); exps.append([fpath, "1", []])
+    if not foreign and rng.random() < 0.12:
+        # test12 on line L and test1 on line "2L" in one column: name followed by line reads the same for both
+        cu = J.colliding_unit(rng, "com.acme", "TallyTest", path_dir="src/test/java" if maven else "", same_name=False,
+                              annotate=J.Annotation("Test"))
+        if cu is not None:
+            xm = []
+            for m in cu.members:
+                if isinstance(m, J.Method) and m.name in ("test12", "test1"):
+                    atoms = []
+                    for s0 in m.body:
+                        e = s0.e
+                        if e.name == "sleep": atoms.append(["sleep", str(cu.toks[e.name_tok].line)])
+                        elif e.name == "assertTrue": atoms.append(["assert", "assertTrue"])
+                        else: atoms.append(["call"])
+                    xm.append([m.name, str(cu.toks[m.name_tok].line), "1", "0", atoms])
+                elif isinstance(m, J.Method):
+                    xm.append([m.name, str(cu.toks[m.name_tok].line), "0", "0", [["call"]] if m.body else []])
+            units.append(cu); exps.append([cu.path, "1", xm])
     for i in range(n):
         pkg = "com.acme" if foreign else rng.choice(["com.acme", "com.acme.core"])
         r = rng.random()
